@@ -11,11 +11,25 @@ ASAN = {"build": "asan"}
 
 PROPS = {}
 
+# properties without a registered check (kept current; see DESIGN.md)
+NOT_APPLICABLE = {}
+_PENDING = "check not registered yet in this revision of /verif (harness under construction; nothing is claimed)"
+for _p in ["C01","C02","C03","C04","C05","C06","C07","C09","C10","C11","C12","C13","C14","C15","C16","C17","C18","C19","C20"]:
+    NOT_APPLICABLE[_p] = _PENDING
+
+LEVEL_NOTE = ("trusted base: g++ 12 + libasan/libubsan (libtsan for C20), the harness-side reference model and generators under /verif/rt and /verif/harness, "
+              "the python driver; assumes the platform configuration compiled here (LP64, 4-byte wchar_t, signed char, C++20, glibc)")
+
 PROPS["C08"] = {
     "title": "slicing returns the clamped byte range",
     "harness": "slice",
     "runs": [ASAN],
     "level": "exploration",
+    "level_text": ("runtime monitoring: the real substr/left/right/trim/before_*/after_* run under ASan+UBSan on ~1.7M (quick) generated calls "
+                   "and are compared call by call with a naive reference slice; the replaced operator new watches every allocation size. "
+                   "Decides the property on the executions produced (exhaustive for the small-alphabet separator sweep, boundary-directed + random elsewhere)"),
+    "level_note": LEVEL_NOTE,
+    "technique": "differential runtime monitoring against a reference model under ASan+UBSan, allocation-size monitor",
     "rule": ("directed grid (every size class x boundary starts/counts incl. LONG_MIN/LONG_MAX/SIZE_MAX-k), every n for left/right, "
              "exhaustive small-alphabet sweep of subject x separator x case mode for before/after, seeded random cases; "
              "a case is distinct by (operation family, subject bytes, parameters); trivial = none (every counted case calls the library and compares with the reference)"),
